@@ -434,4 +434,56 @@ Proof.
       right. exists (length (concat ws)). rewrite firstn_all.
       unfold apply. cbn [fold_left apply1]. rewrite Ht2. apply upd_same.
 Qed.
+
+(* --- death by an exception: prefix, then the unwinding --- *)
+Lemma unwind_safe_target inited pre f :
+  unwind_commits = false ->
+  Forall (safe fn) (unwind_effs cfg fn tok now chunk inited pre f).
+Proof.
+  intro Hu. unfold unwind_effs, unwind_op. rewrite Hu.
+  destruct inited; [|constructor].
+  cbn [step a_closed]. fold temp. destruct (existsb is_closeF pre); cbn [fst snd]; [constructor|].
+  constructor; [exact Logic.I|]. destruct (f temp); [|constructor].
+  constructor; [exact Htf|constructor].
+Qed.
+
+Lemma unwind_target inited pre f0 :
+  unwind_commits = false ->
+  apply (pre ++ unwind_effs cfg fn tok now chunk inited pre (apply pre f0)) f0 fn = apply pre f0 fn.
+Proof. intro Hu. rewrite apply_app. apply apply_safe. now apply unwind_safe_target. Qed.
+
+Lemma atomic_under_unwinding f0 ws k inited :
+  unwind_commits = false ->
+  xdev_eff cfg = false ->
+  atomic_outcome (f0 fn) (concat ws)
+    (apply (interrupted cfg fn tok now chunk f0 (save_ops ws) k inited) f0 fn).
+Proof.
+  intros Hu Hx. unfold interrupted. rewrite unwind_target by exact Hu. now apply atomic_same_fs.
+Qed.
+
+Lemma unwinding_old_or_prefix f0 ws k inited :
+  unwind_commits = false ->
+  let t := apply (interrupted cfg fn tok now chunk f0 (save_ops ws) k inited) f0 fn in
+  t = f0 fn \/ exists m, t = Some (firstn m (concat ws)).
+Proof.
+  intro Hu. cbv zeta. unfold interrupted. rewrite unwind_target by exact Hu. apply xdev_prefix.
+Qed.
+
+(* an exception while the temp file is still open (outside __init__): the temp file is removed *)
+Lemma unwinding_removes_temp f0 ops k :
+  unwind_commits = false ->
+  let pre := firstn k (effects cfg fn tok now chunk f0 ops) in
+  existsb is_closeF pre = false ->
+  apply (interrupted cfg fn tok now chunk f0 ops k true) f0 temp = None.
+Proof.
+  intros Hu pre Hc. unfold interrupted. fold pre. rewrite apply_app.
+  unfold unwind_effs, unwind_op. rewrite Hu, Hc. cbn [step a_closed fst snd]. fold temp.
+  destruct (apply pre f0 temp) eqn:E.
+  - unfold apply at 1. cbn [fold_left apply1]. apply upd_same.
+  - unfold apply at 1. cbn [fold_left apply1]. exact E.
+Qed.
 End Session.
+
+(* the regenerated table says: unwinding never commits *)
+Lemma table_unwind_rolls_back : unwind_commits = false.
+Proof. vm_compute. reflexivity. Qed.
